@@ -23,6 +23,8 @@ import (
 func init() {
 	cf := "internal/backends/compiler_wat/compile_func.go"
 	register(&Property{ID: "C16", Run: runC16, Mutants: []Mutant{
+		{Name: "rune/i32 assignment accepted in one direction only", File: "internal/backends/compiler_wat/wir/instruction_emitter.go", Old: "!(lh.Type().Equal(m.I32) && rh.Type().Equal(m.RUNE) || lh.Type().Equal(m.RUNE) && rh.Type().Equal(m.I32))", New: "!(lh.Type().Equal(m.RUNE) && rh.Type().Equal(m.I32))", Expect: "assign-compat-symmetric"},
+		{Name: "deferred static call pops its discarded results first-to-last", File: cf, Old: "\t\t\tfor i := range rets {\n\t\t\t\tj := len(rets) - i - 1\n\t\t\t\tret := wir.NewLocal(\"r\"+strconv.Itoa(j), rets[j])", New: "\t\t\tfor i, rt := range rets {\n\t\t\t\tret := wir.NewLocal(\"r\"+strconv.Itoa(i), rt)", Nth: 1, Expect: "result-pop-order"},
 		{Name: "MapUpdate arm dropped", File: cf, Old: "\tcase *ssa.MapUpdate:\n\t\tinsts = append(insts, g.module.EmitGenMapUpdate(g.getValue(inst.Map).value, g.getValue(inst.Key).value, g.getValue(inst.Value).value)...)\n", New: "", Expect: "ir-exhaustive :: ssa.MapUpdate"},
 		{Name: "TypeAssert arm turned fatal", File: cf, Old: "\tcase *ssa.TypeAssert:\n\t\treturn g.genTypeAssert(v)\n", New: "\tcase *ssa.TypeAssert:\n\t\tlogger.Fatalf(\"Todo: %v\", v)\n", Expect: "ir-exhaustive :: ssa.TypeAssert"},
 		{Name: "nil map constant arm dropped", File: cf, Old: "\t\tcase *types.Map:\n\t\t\tif v.Value == nil {\n\t\t\t\treturn valueWrap{value: wir.NewConst(\"0\", g.tLib.compile(t))}\n\t\t\t}\n\t\t\tlogger.Fatalf(\"Todo:%T\", t)\n", New: "", Expect: "const-kind-coverage :: nil constant of *types.Map"},
@@ -57,6 +59,10 @@ func runC16(c *Ctx) {
 	}
 	c16IR(c, p, bk, ssap, ldp)
 	c16ConstKinds(c, p, bk)
+	c16ResultPopOrder(c, p, bk)
+	if wp := p.MustPkg("assign-compat-symmetric", "internal/backends/compiler_wat/wir"); wp != nil {
+		c16AssignCompat(c, p, wp)
+	}
 	c16Linkage(c, p, cfgp)
 	c16FatalInventory(c, p)
 }
